@@ -11,7 +11,7 @@ class Prop(GraphProp):
     tiers = {"quick": {"runs": 6000, "budget_s": 45, "chunk": 8},
              "thorough": {"runs": 400000, "budget_s": 900, "chunk": 16}}
     rule = ("case = seeded world whose Hamiltonian is a lazily evaluated user BlockSeries (blocked / scalar+indices / "
-            "scalar+eigenvectors; dict and list inputs only in the poisoned-twin variant) with terms at arbitrary "
+            "scalar+eigenvectors / scalar series of nested block lists; dict and list inputs only in the poisoned-twin variant) with terms at arbitrary "
             "multi-orders + seeded request schedule; the Hamiltonian-term callback is the monitored seam: after every "
             "operation its call log must lie in the dependency cone of the requested orders, definitions may touch order 0 "
             "only, each term is evaluated at most once; in the poisoned-twin variant every term outside the cone of the "
@@ -25,8 +25,8 @@ class Prop(GraphProp):
     assumptions = ["only evaluations of the caller's Hamiltonian callback are observed (cache hits are not calls)",
                    "chained computations are excluded (their callback legitimately evaluates another computation)"]
 
-    profile = {"p_chain": 0.0, "fmts": ["blocked"] * 5 + ["scalar_idx"] * 3 + ["scalar_vecs"] * 2, "p_illposed": 0.0,
-               "p_derived": 0.3}
+    profile = {"p_chain": 0.0, "fmts": ["blocked"] * 5 + ["scalar_idx"] * 3 + ["scalar_vecs"] * 2 + ["nested"], "p_illposed": 0.0,
+               "p_derived": 0.3, "p_nested_lazy": 1.0}
     profile_poison = {"p_chain": 0.0, "fmts": ["blocked"] * 4 + ["scalar_idx"] * 2 + ["scalar_vecs", "dict", "dict", "list"],
                       "p_illposed": 0.0, "p_derived": 0.3, "domains": ["dense"] * 6 + ["sparse"] * 2}
 
